@@ -11,7 +11,14 @@ EXTENDS NNLS, Json, IOUtils
 Events == ndJsonDeserialize(IOEnv.TRACE_FILE)
 
 S == 1000000
-SolTol == 10        \* |x - x*| <= 1e-5 per entry (solvers reach 1e-8: fista's floor epsilon = 1e-8, hals 5e-9 at cond 34)
+\* Solutions are logged to 12 decimals: y = rint(x * 10^6) and f = rint((x * 10^6 - y) * 10^6).  Tolerances are named from
+\* what the solvers achieve on the unchanged tree, with a safety factor, in units of 1e-12:
+\*   active_set / admm : direct solves, observed <= 2e-15           -> 1e-10
+\*   hals (tol=1e-16 or exact=True: relative step 1e-8), fista (floor epsilon = 1e-8): observed <= 5e-9 / 1e-8  -> 2e-6
+FineTolDirect == 100
+FineTolIter == 2000000
+FineTol(solver) == IF solver \in {"active_set", "admm"} THEN FineTolDirect ELSE FineTolIter
+SolTol == 2         \* coarse guard on y before the fine comparison (2e-6)
 ZeroTol == 10       \* measured tier: an entry <= 1e-5 counts as "at the bound"
 KktTol == 50        \* measured tier: gradient residual 5e-5 (|G| <= ~100, solution error <= 1e-8 .. 1e-7)
 CondMax == 1000     \* measured tier: condition number bound of the drawn problems
@@ -54,13 +61,18 @@ ExactClose(e) ==
         LET pr == [G |-> e.G, b |-> e.B[j], p1 |-> e.p1, p2 |-> e.p2, q |-> e.q] IN
         \A x \in {IF ~Constrained(e) THEN SolveFree(pr) ELSE IF e.ep > 0 THEN SolveLB(pr, e.ep, e.eq) ELSE Solve(pr)} :
             /\ x.den > 0 /\ x.den < 2147
-            /\ \A i \in 1..Len(e.G) : AbsN(e.x[j][i] - Units(x.num[i], x.den)) <= SolTol + 1
+            /\ \A i \in 1..Len(e.G) :
+                 LET hi == Units(x.num[i], x.den)                                   \* floor(x* 10^6)
+                     lo == ((((x.num[i] % x.den) * S) % x.den) * S) \div x.den       \* next six decimals of x*
+                     dy == e.x[j][i] - hi IN
+                 /\ AbsN(dy) <= SolTol + 1
+                 /\ AbsN(dy * S + e.xf[j][i] - lo) <= FineTol(e.solver)
 
 ExactVerdict(e) ==
     IF ~ExactInDomain(e) THEN "InDomain"
     ELSE IF e.raised THEN "Raised"
-    ELSE IF e.size # Len(e.B) * Len(e.G) \/ ~IsCols(e.x, Len(e.B), Len(e.G)) THEN "Shape"
-    ELSE IF ~AllFin(e.x) THEN "Finite"
+    ELSE IF e.size # Len(e.B) * Len(e.G) \/ ~IsCols(e.x, Len(e.B), Len(e.G)) \/ ~IsCols(e.xf, Len(e.B), Len(e.G)) THEN "Shape"
+    ELSE IF ~AllFin(e.x) \/ ~AllFin(e.xf) THEN "Finite"
     \* e.nlow = number of returned entries below the bound (0, or epsilon when given), counted on the floats
     ELSE IF Constrained(e) /\ e.nlow # 0 THEN (IF e.ep > 0 THEN "Floor" ELSE "NonNeg")
     ELSE IF ~ExactClose(e) THEN "Close"
